@@ -604,10 +604,11 @@ void ExpressionBuilder::expr_dot(const char* id)
             throw IsNotAStructError(expr.str(true));
         }
         // temporarily set the frame to that of its associated template
-        if (dynamicFrames.find(expr.get_symbol().get_name()) == dynamicFrames.end()) {
+        const auto dynamicFrame = dynamicFrames.find(expr.get_symbol().get_name());
+        if (dynamicFrame == dynamicFrames.end()) {
             throw UnknownIdentifierError(expr.get_symbol().get_name());
         }
-        push_frame(dynamicFrames[expr.get_symbol().get_name()]);
+        push_frame(dynamicFrame->second.back());
         const bool found = resolve(id, uid);
         popFrame();  // Remove that frame again
         if (!found) {
@@ -1094,7 +1095,16 @@ void ExpressionBuilder::push_dynamic_frame_of(template_t* t, string name)
     if (!t->is_defined) {
         throw TypeException("Template referenced before used");
     }
-    dynamicFrames[name] = t->frame;
+    // binders of the same name nest: the innermost one is the last
+    dynamicFrames[name].push_back(t->frame);
 }
 
-void ExpressionBuilder::pop_dynamic_frame_of(string name) { dynamicFrames.erase(name); }
+void ExpressionBuilder::pop_dynamic_frame_of(string name)
+{
+    const auto it = dynamicFrames.find(name);
+    if (it == dynamicFrames.end())
+        return;
+    it->second.pop_back();
+    if (it->second.empty())
+        dynamicFrames.erase(it);
+}
